@@ -1715,3 +1715,130 @@ func ruleLimitDirection(r *Run) {
 		r.undecided("stream size refusals", token.NoPos, "no refusing comparison with a configured size limit found in the stream methods")
 	}
 }
+
+func init() {
+	register(&Rule{Name: "EOF-NO-PHANTOM", Floor: 1,
+		Doc: "streamHTTP.readMsg delivers no message where the stream codec reported the end of the body without one: on the way through `err == io.EOF` with a returned length of 0 and at least one message already received, every return carries a non-nil error (io.EOF, or an error for left-over bytes). Clearing the error there hands the handler a phantom empty message - a protobuf stream of three messages arrives as four, a JSON stream ends in an unmarshal error instead of io.EOF",
+		Run: ruleEOFNoPhantom})
+}
+
+func ruleEOFNoPhantom(r *Run) {
+	p := r.P
+	fn := p.Method("streamHTTP", "readMsg")
+	if fn == nil {
+		r.missing("method (*streamHTTP).readMsg")
+		return
+	}
+	key := shortFunc(fn) + "/end-of-body-is-no-message"
+	var rn *ssa.Call
+	eachInstr(fn, func(in ssa.Instruction) {
+		if c, ok := in.(*ssa.Call); ok && c.Call.IsInvoke() && c.Call.Method.Name() == "ReadNext" {
+			rn = c
+		}
+	})
+	if rn == nil {
+		r.undecided(key, fn.Pos(), "no ReadNext call found in readMsg")
+		return
+	}
+	nv, ev := extractOf(rn, 1), extractOf(rn, 2)
+	if nv == nil || ev == nil {
+		r.undecided(key, rn.Pos(), "ReadNext's length or error result is not used")
+		return
+	}
+	cnt := p.StructField("streamHTTP", "recvCount")
+	isCount := func(v ssa.Value) bool {
+		for _, o := range p.origins(v, originOpts{local: true, throughConvert: true}) {
+			if loadedField(o) == cnt {
+				return true
+			}
+		}
+		return false
+	}
+	isEOF := func(v ssa.Value) bool {
+		for _, o := range p.origins(v, originOpts{local: true}) {
+			if u, ok := o.(*ssa.UnOp); ok && u.Op == token.MUL {
+				if g, ok := u.X.(*ssa.Global); ok && g.Name() == "EOF" && g.Pkg != nil && g.Pkg.Pkg.Path() == "io" {
+					return true
+				}
+			}
+		}
+		return false
+	}
+	sawEOFTest := false
+	// edges consistent with: err == io.EOF, n == 0, count >= 1
+	edgeOK := func(b *ssa.BasicBlock, succ int) bool {
+		ifi := blockIf(b)
+		if ifi == nil {
+			return true
+		}
+		g := guardFact{Cond: ifi.Cond, True: succ == 0, If: ifi}
+		x, y, op, ok := g.cmp()
+		if !ok {
+			return true
+		}
+		xs, ys := p.stripConvAll(x), p.stripConvAll(y)
+		switch {
+		case (xs == ev && isEOF(ys)) || (ys == ev && isEOF(xs)):
+			sawEOFTest = true
+			return op == token.EQL
+		case xs == ev && isNilConst(ys):
+			return op == token.NEQ // the error is io.EOF, not nil
+		case xs == nv:
+			if k, isC := constInt(ys); isC {
+				switch op {
+				case token.EQL:
+					return k == 0
+				case token.NEQ:
+					return k != 0
+				case token.GTR:
+					return 0 > k
+				case token.GEQ:
+					return 0 >= k
+				case token.LSS:
+					return 0 < k
+				case token.LEQ:
+					return 0 <= k
+				}
+			}
+		case isCount(xs):
+			if k, isC := constInt(ys); isC {
+				switch op { // count >= 1 (a message was received before)
+				case token.EQL:
+					return k >= 1
+				case token.GTR:
+					return true
+				case token.GEQ:
+					return true
+				case token.LSS:
+					return k >= 2
+				case token.LEQ:
+					return k >= 1
+				}
+			}
+		}
+		return true
+	}
+	var hit ssa.Instruction
+	q := pathQuery{fn: fn, start: rn, edgeOK: edgeOK, target: func(x ssa.Instruction) bool {
+		rt, ok := x.(*ssa.Return)
+		if !ok || len(rt.Results) < 3 {
+			return false
+		}
+		for _, o := range p.origins(rt.Results[2], originOpts{local: true}) {
+			if isNilConst(o) {
+				hit = x
+				return true
+			}
+		}
+		return false
+	}}
+	w, _ := q.find()
+	switch {
+	case !sawEOFTest:
+		r.undecided(key, rn.Pos(), "readMsg does not compare ReadNext's error with io.EOF")
+	case w != nil:
+		r.bad(key, hit.Pos(), "where ReadNext reports the end of the body without a message (io.EOF, length 0) after at least one message, readMsg can still return a nil error (%s): the handler receives an empty message that the client never sent (or an unmarshal error instead of io.EOF)", p.describePath(w))
+	default:
+		r.ok(key, rn.Pos(), "every return on the path (io.EOF, length 0, a message already received) carries an error")
+	}
+}
